@@ -33,7 +33,7 @@ func (r *rng) intn(n int) int {
 	}
 	return int(r.next() % uint64(n))
 }
-func (r *rng) pick(xs ...int) int       { return xs[r.intn(len(xs))] }
+func (r *rng) pick(xs ...int) int        { return xs[r.intn(len(xs))] }
 func (r *rng) picks(xs ...string) string { return xs[r.intn(len(xs))] }
 func (r *rng) chance(pct int) bool       { return r.intn(100) < pct }
 
